@@ -23,7 +23,7 @@ class Node:
 
 
 class Cluster:
-    def __init__(self, n, snapcount=None, catchup=None, wal_segment=4 * 1024 * 1024, trace=True, join_later=0):
+    def __init__(self, n, snapcount=None, catchup=None, wal_segment=4 * 1024 * 1024, trace=True, join_later=0, extra_conf=None):
         self.bin = server.build_server("verif")
         self.dir = common.scratch("cluster-")
         self.nodes = [Node(self, i + 1) for i in range(n + join_later)]
@@ -32,6 +32,7 @@ class Cluster:
         self.catchup = catchup
         self.wal_segment = wal_segment
         self.trace = trace
+        self.extra_conf = extra_conf or {}
 
     def peers(self, upto=None):
         return ",".join("http://127.0.0.1:%d" % nd.raft_port for nd in self.nodes[:upto or self.n0])
@@ -39,6 +40,7 @@ class Cluster:
     def start_node(self, nd, crash_at=None, join=False, peers=None, crash_delay_ms=0, crash_arm=None):
         conf = {"IsCluster": True, "PeerAddrs": peers or self.peers(), "RaftAddr": "", "PeerIDs": ",".join(str(i + 1) for i in range(self.n0)),
                 "NodeID": nd.id, "KVPort": nd.kv_port, "JoinCluster": join}
+        conf.update(self.extra_conf)
         json.dump(conf, open(os.path.join(nd.dir, "cluster.json"), "w"))
         open(os.path.join(nd.dir, "redis.conf"), "w").write(
             "host 127.0.0.1\nport %d\nlogdir %s\nloglevel panic\nshardnum 16\ndatabases 1\n" % (nd.kv_port, nd.dir))
